@@ -20,7 +20,7 @@ RULE = ('Parents: every entry kind and postings, parsed from generated texts who
         'every constructor that accepts indent_by (found by reflection; arguments planned as in C15), optionally with their meta cleared, then meta[key] = value. Oracle: a meta item '
         'created from a plain value takes the indent its existing siblings share, or parent indent + indent_by when there are none (any existing '
         'sibling\'s indent when they disagree); a comment created by an indented owner\'s setter has the owner\'s indent; an inserted raw node keeps its '
-        'indent verbatim; every pre-existing indent token and comment indent is unchanged, including a comment's own lines when its text is set again. Non-trivial = indent_by != four spaces, or the parent is a '
+        'indent verbatim; every pre-existing indent token and comment indent is unchanged, including the lines of a comment when its text is set again. Non-trivial = indent_by != four spaces, or the parent is a '
         'posting, or the existing items use a non-default indent.')
 ASSUMPTIONS = ['with disagreeing sibling indents any sibling\'s indent is accepted (docs and code differ on first vs last)']
 SHRINK_LISTS = ('ops',)
